@@ -44,7 +44,7 @@ type RunOpts struct {
 
 func defaultOracles(e *Env) {
 	e.T = newTrack()
-	e.Oracles = []Oracle{trackOracle{}, newInvOracle(), newMoneyOracle(), newAuthOracle(), newLifeOracle()}
+	e.Oracles = []Oracle{trackOracle{}, newInvOracle(), newMoneyOracle(), newAuthOracle(), newLifeOracle(), newDidOracle()}
 }
 
 // Generate runs the adaptive generator on the observer and returns the result + trace.
@@ -67,6 +67,7 @@ func Generate(seed uint64, profName string, opt RunOpts) *RunResult {
 	defaultOracles(e)
 	e.KeepBlocks = opt.Mode == "c01" || opt.Mode == "c03"
 	g := NewGen(e, prof)
+	g.Regen = opt.Mode == "c18"
 	for {
 		st := g.Next()
 		if st == nil {
